@@ -29,6 +29,11 @@ def gen(fmt, prob, kind, layout, k, raw):
     ptext = PROBLEMS[fmt][prob]
     body = ['Summary line.', '', 'A normal paragraph', 'spanning two lines.', ''] + ptext.split('\n') + ['', 'Closing paragraph.']
     pidx = 5   # index in body of the first problem line
+    if kind == 'ivar_field':
+        # the problem sits in the body of a field that documents an attribute of the class (the attribute's documentation is SPLIT
+        # from the class docstring): the field starts at body[5], the problem text is on its continuation line
+        tag = '@ivar attr:' if fmt == 'epytext' else ':ivar attr:'
+        body = ['Summary line.', '', 'A normal paragraph', 'spanning two lines.', '', tag + ' the attribute,', '    ' + ptext, '    last line of the field.']
     lines = ['# c'] * k
     indent = ''
     if kind == 'module':
@@ -41,6 +46,10 @@ def gen(fmt, prob, kind, layout, k, raw):
         lines += ['class C:', '    def m(self, x):']; indent = '        '
     elif kind == 'attribute':
         lines += ['class C:', '    attr = 1']; indent = '    '
+    elif kind == 'ivar_field':
+        lines.append('class C:'); indent = '    '
+    elif kind == 'inherited':
+        lines += ['class B:', '    def m(self, x):']; indent = '        '
     q = ('r' if raw else '') + '"""'
     # layouts: 0 text on the opening line; 1 text on the next line; 2 one blank line first; 3 two blank lines; 4 whitespace-only first line
     if layout == 0:
@@ -55,14 +64,19 @@ def gen(fmt, prob, kind, layout, k, raw):
     doc.append(indent + '"""')
     lines += doc
     last = len(lines)
-    if kind in ('function', 'method'):
+    if kind in ('function', 'method', 'inherited'):
         lines.append(indent + 'return x')
+    if kind == 'inherited':
+        # the overriding method has no docstring of its own and shows the inherited one
+        lines += ['class C(B):', '    def m(self, x):', '        return x']
+    if kind == 'ivar_field':
+        lines.append('    attr = 1')
     return '\n'.join(lines) + '\n', pline, first, last
 
 
 FMTS = list(PROBLEMS)
-KINDS = ["module", "function", "class", "method", "attribute"]
-NAMES = {"module": "m", "function": "m.f", "class": "m.C", "method": "m.C.m", "attribute": "m.C.attr"}
+KINDS = ["module", "function", "class", "method", "attribute", "ivar_field", "inherited"]
+NAMES = {"module": "m", "function": "m.f", "class": "m.C", "method": "m.C.m", "attribute": "m.C.attr", "ivar_field": "m.C.attr", "inherited": "m.C.m"}
 MSG = re.compile(r"^([^:]+):(\d+|\?\?\?): (.*)$", re.DOTALL)
 
 
@@ -75,6 +89,11 @@ def warnings_for(fmt, prob, kind, layout, k, raw):
     o = s.allobjects[NAMES[kind]]
     epydoc2stan.format_docstring(o)
     epydoc2stan.format_summary(o)
+    if kind == "inherited":
+        # a run renders every object: the base method, on whose page problems of its docstring are reported, as well
+        b = s.allobjects["m.B.m"]
+        epydoc2stan.format_docstring(b)
+        epydoc2stan.format_summary(b)
     out = []
     for _sec, m, t in s.msgs:
         if t < 0:
@@ -86,7 +105,9 @@ def warnings_for(fmt, prob, kind, layout, k, raw):
 def check_planted(fmt, prob, kind, layout, k, raw):
     if prob not in PROBLEMS[fmt]:
         return True
-    if prob == "param" and kind not in ("function", "method"):
+    if prob == "param" and kind not in ("function", "method", "inherited"):
+        return True
+    if kind == "ivar_field" and (prob != "xref" or fmt not in ("epytext", "restructuredtext")):
         return True
     src, pline, first, last, ws, _v = warnings_for(fmt, prob, kind, layout, k, raw)
     ctx = dict(docformat=fmt, problem=prob, kind=kind, layout=layout, offset=k, raw=raw, planted_line=pline, docstring_lines=(first, last), src=src)
@@ -99,7 +120,7 @@ def check_planted(fmt, prob, kind, layout, k, raw):
             return False
         ln = int(line)
         if fmt in ("epytext", "restructuredtext"):
-            if ln != pline:
+            if ln != pline and not (kind == "ivar_field" and ln == pline + 1):      # (the field's first line, or the very line of the reference)
                 key = None
                 if fmt == "restructuredtext" and prob == "markup" and ln == pline + 1:
                     key = "C16:rst-inline-markup-error-reported-one-line-below-the-start-of-its-paragraph"
@@ -124,7 +145,7 @@ def check_planted(fmt, prob, kind, layout, k, raw):
     code=["pydoctor.astutils.extract_docstring_linenum / Documentable.setDocstring", "pydoctor.model.Documentable.report", "pydoctor.epydoc2stan.reportErrors / Field.report / FieldHandler",
           "pydoctor.epydoc.markup.epytext (Token.startline, ParseError)", "pydoctor.epydoc.markup.restructuredtext (_EpydocReader.report, field line numbers)",
           "pydoctor.epydoc.markup._napoleon / pydoctor.napoleon (google, numpy)", "pydoctor.linker._EpydocLinker (unresolved cross-reference report)"],
-    bounds={"quick": "4 docformats x problem kinds (unresolvable cross-reference, unknown field, documented parameter that does not exist, markup error) x 5 object kinds x 5 docstring layouts (text on the opening line, below it, after 1 or 2 blank lines, after a whitespace-only line) x vertical offset 0/3 x raw string or not (960 modules)",
+    bounds={"quick": "4 docformats x problem kinds (unresolvable cross-reference, unknown field, documented parameter that does not exist, markup error) x 7 object kinds (module, function, class, method, attribute, attribute documented by an @ivar field of its class's docstring, method showing a docstring inherited from its base class) x 5 docstring layouts (text on the opening line, below it, after 1 or 2 blank lines, after a whitespace-only line) x vertical offset 0/3 x raw string or not (1 344 modules)",
             "thorough": "offsets 0..3"},
     outside="docstring texts other than the generated one; several problems per docstring",
 )
